@@ -324,6 +324,10 @@ def llvm_intrinsic(eng, st, fr, ins, name, args):
     if base == 'ptrmask':
         regs[dest] = eng.binop('and', args[0], args[1], 64)
         return None
+    if name in ('llvm.x86.sse2.pause', 'llvm.aarch64.isb', 'llvm.aarch64.hint'):
+        # core::hint::spin_loop(): a scheduling hint without effect on memory. Whether the loop around it waits for
+        # another thread is decided by the loop analysis (C08: symbolic retry bound, cb: spin on unchanging memory).
+        return None
     raise Unsupported('intrinsic %s' % name)
 
 
